@@ -108,13 +108,16 @@ class Block:
         return '%s%s for %s' % (trait_name, targs, self_ty)
 
 
-def trait_def(name, generics='', unsafe=False, with_fn=True, where=''):
+def trait_def(name, generics='', unsafe=False, with_fn=True, where='', with_type=False):
     return ('pub %strait %s%s' + (' ' + where if where else '') + ' {\n    const NAME: &\'static str;\n    const ID: u8 = 0;\n'
+            + ('    type Out;\n' if with_type else '') +
             '    fn f() -> &\'static str { "default" }\n}\n') % ('unsafe ' if unsafe else '', name, generics)
 
 
-def block_text(b, trait_name):
+def block_text(b, trait_name, with_type=False):
     items = ['    const NAME: &\'static str = "%s";' % b.tag]
+    if with_type:
+        items.append('    type Out = [u8; %d];' % (int(b.tag[1:]) + 1))
     if 'ID' in b.overrides:
         items.append('    const ID: u8 = %d;' % (int(b.tag[1:]) + 1))
     if 'f' in b.overrides:
@@ -158,7 +161,8 @@ HEADERS = {
     'optvec': ('(Option<{T0}>, Vec<{T1}>)', ['T0', 'T1']),
 }
 SPELL = {'T0': ['T', 'U', 'A', 'Elem', 'Tr', 'T0'], 'T1': ['U', 'T', 'B', 'Other', 'V', 'G'],
-         'N0': ['N', 'M', 'LEN'], 'L0': ["'a", "'b", "'x"], 'L1': ["'y", "'c", "'p"], 'L2': ["'z", "'d", "'q"]}
+         'N0': ['N', 'M', 'LEN'], 'L0': ["'a", "'b", "'x"], 'L1': ["'y", "'c", "'p"], 'L2': ["'z", "'d", "'q"],
+         'T9': ['P', 'Q', 'Pay', 'Item']}
 
 
 class Picker:
@@ -282,8 +286,9 @@ class Case:
 
     def invocation(self, order=None):
         blocks = self.blocks if order is None else [self.blocks[i] for i in order]
-        body = (trait_def(self.trait_name, self.trait_generics, where=getattr(self, 'trait_where', '')) if self.trait_name else '')
-        body += ''.join(block_text(b, self.trait_name) for b in blocks)
+        wt = getattr(self, 'with_type', False)
+        body = (trait_def(self.trait_name, self.trait_generics, where=getattr(self, 'trait_where', ''), with_type=wt) if self.trait_name else '')
+        body += ''.join(block_text(b, self.trait_name, with_type=wt) for b in blocks)
         return body
 
     def bound_of_probe(self, p):
@@ -299,6 +304,8 @@ class Case:
             tr = '%s%s' % (self.trait_name, '<%s>' % targs if targs else '')
             if values_for is None:
                 lines.append('    println!("P%d {}", impls!(%s: %s));' % (j, ty, tr))
+            elif j in values_for and getattr(self, 'with_type', False):
+                lines.append('    println!("V%d {} {} {} {}", <%s as %s>::NAME, <%s as %s>::ID, <%s as %s>::f(), core::any::type_name::<<%s as %s>::Out>().replace(" ", ""));' % (j, ty, tr, ty, tr, ty, tr, ty, tr))
             elif j in values_for:
                 lines.append('    println!("V%d {} {} {}", <%s as %s>::NAME, <%s as %s>::ID, <%s as %s>::f());' % (j, ty, tr, ty, tr, ty, tr))
         src += 'fn main() {\n%s\n}\n' % '\n'.join(lines)
@@ -606,6 +613,37 @@ def gen_case(rng, kind, idx=None):
             elif not ty.startswith(wname + '<') and rng.random() < 0.5:
                 world[(ty, trt)] = {'G': inner[2]['G']}
         return Case(kind, 'K', '', blocks, probes, world)
+    elif kind == 'payload':
+        # generic payloads: the bound's associated type is bound to a type built from a parameter
+        # that occurs nowhere else (`T: D<G = Vec<P>>`); rows pairwise non-unifiable
+        h = pk.choice(['T', 'vec', 'pair', 'opt', 'box'])
+        self_fmt, used0 = HEADERS[h]
+        tr = pk.choice(['D', 'D2', 'Dp'])
+        assoc = 'G'
+        templates = ['Vec<{T9}>', 'Option<{T9}>', '({T9},)', '[{T9}; 1]', 'GA', '*const {T9}', '({T9}, GB)', '({T9}, GC)']
+        rows = rng.sample(templates, pk.choice([2, 3]))
+        bounded = rng.choice(['{T0}'] + ([self_fmt] if h != 'T' else []))
+        blocks = []
+        for i, row in enumerate(rows):
+            used = list(used0) + (['T9'] if '{T9}' in row else [])
+            slots = mk_slots(rng, used)
+            order = list(slots); rng.shuffle(order)
+            binds = {assoc: row}
+            if tr == 'D2' and rng.random() < 0.5:
+                binds['H'] = rng.choice(GROUPS)
+            blocks.append(Block({x: slots[x] for x in order}, None, self_fmt, [(bounded, tr, binds, rng.choice(['inline', 'where']))], 'b%d' % i,
+                                overrides=['NAME'] + (['ID'] if rng.random() < 0.5 else [])))
+        headers = [HEADERS[h]] * len(blocks)
+        for i, b in enumerate(blocks):
+            b.tag = 'b%d' % i
+        probes, world = build_world_and_probes(rng, blocks, headers, nprobes=8, impl_rate=0.9)
+        # payload values: instances of the rows (and a few non-instances)
+        vals = [r.format(T9=a) for r in templates for a in ('X0', 'X1')]
+        for key in list(world):
+            if world[key] is not None:
+                world[key] = dict(world[key])
+                world[key][assoc] = rng.choice([r.format(T9=rng.choice(['X0', 'X1', 'Vec<X0>'])) for r in rows]) if rng.random() < 0.75 else rng.choice(vals)
+        return Case(kind, 'K', '', blocks, probes, world)
     elif kind == 'tworoots':
         # two incomparable headers with a common specialisation and no common generalisation:
         # (W<T>, U) keyed on U: D   |   (T, Vec<U>) keyed on T: D2   |   (W<T>, Vec<U>) keyed on W<T>: D2
@@ -651,7 +689,7 @@ def gen_case(rng, kind, idx=None):
             blocks.append(Block({x: slots[x] for x in order}, None, self_fmt, bounds, 'b%d' % i))
         headers = [(self_fmt, used)] * len(blocks)
     elif kind == 'overlap':
-        mode = pk.choice(['same', 'wild', 'otherkey'])
+        mode = pk.choice(['same', 'wild', 'otherkey', 'generic_payload'])
         h = pk.choice(['T', 'pair', 'vec', 'opt', 'vecpair'])
         blocks = gen_family(rng, h, 2, 0, extra=False, tr=pk.choice(['D', 'D2', 'Dp', 'Dp<u8>']))
         b0, b1 = blocks
@@ -660,6 +698,18 @@ def gen_case(rng, kind, idx=None):
             b1.bounds[0] = (bounded, tr, dict(b0.bounds[0][2]), place)
         elif mode == 'wild':
             b1.bounds[0] = (bounded, tr, {}, place)
+        elif mode == 'generic_payload':
+            # b0's row generalises b1's (overlap), or differs from it only by non-linearity (no overlap)
+            assoc0 = list(b0.bounds[0][2])[0]
+            gen_row, inst_row = rng.choice([('{T9}', 'GA'), ('Vec<{T9}>', 'Vec<GB>'), ('({T9}, {T9})', '(GA, GA)'),
+                                            ('({T9}, {T9})', '(GA, GB)'), ('({T9}, GA)', '(GB, GA)'), ('Option<{T9}>', 'Option<Vec<{T9}>>')])
+            for blk, row in ((b0, gen_row), (b1, inst_row)):
+                bd, t, bi, plc = blk.bounds[0]
+                blk.bounds[0] = (bd, t, {assoc0: row}, plc)
+                if '{T9}' in row:
+                    blk.slots['T9'] = ('ty', rng.choice([n for n in SPELL['T9'] if n not in {v[1] for v in blk.slots.values()}]))
+                    blk.order = list(blk.slots)
+            ground_rows = [inst_row.format(T9='X0'), gen_row.format(T9='X1')]
         else:
             # distinguished only on DIFFERENT keys: D::G vs D2::G on the same bounded type
             other = {'D': 'D2', 'D2': 'D', 'Dp': 'Dp<u8>', 'Dp<u8>': 'Dp'}[tr]
@@ -670,4 +720,8 @@ def gen_case(rng, kind, idx=None):
     for i, b in enumerate(blocks):
         b.tag = 'b%d' % i
     probes, world = build_world_and_probes(rng, blocks, headers, prefer_rate=0.5 if kind == 'overlap' else 0.0)
+    if kind == 'overlap' and mode == 'generic_payload':
+        for key in list(world):
+            if world[key] is not None and assoc0 in world[key] and rng.random() < 0.7:
+                world[key] = dict(world[key]); world[key][assoc0] = rng.choice(ground_rows)
     return Case(kind, 'K', '', blocks, probes, world)
